@@ -63,7 +63,7 @@ Catalog == <<
   [name |-> "catch-all", rules |-> <<
       Plain(<<T("a"), ST>>, << << <<"a","1">> >> >>, <<>>),
       Plain(<<T("blk"), ST>>, << << <<"blk","1">> >> >>, <<>>),
-      Glob(Plain(<<T(Prefix), TT>>, << << <<Prefix,"n","1">> >>, << <<Prefix,"nx","1">> >> >>, <<>>)),
+      Glob(Plain(<<T(Prefix), TT>>, << << <<Prefix,"n","1">> >> >>, <<>>)),
       Glob(Plain(<<TT>>, << << <<"g","1">> >>, << <<"g","2","k">> >> >>, <<>>)) >>],
   [name |-> "shared-prefix", rules |-> <<
       Plain(<<T("ip"), T("address"), ST>>, << << <<"ip","address","1">> >> >>, <<>>),
